@@ -352,7 +352,7 @@ class C07(Monitor):
         elif kind in ("donate", "transfer"):
             receiver = sem["target"]
         elif kind in ("unauth", "add_decimals", "admin", "owner_admin", "matrix"):
-            pass
+            addressed.add(op["contract"])   # the contract the message is sent to (it may keep attached coins); nobody else
         lp_of = dict((p.lp, p) for p in w.pairs)
         problems = []
         diff = pre.diff(post)
@@ -370,8 +370,9 @@ class C07(Monitor):
             problems.append("third-party cell (%s, %s) changed %d -> %d" % (acct, aid, b, a_))
         # conservation of natives
         for dn in w.t_denoms:
-            s0 = sum(pre.bal[(a, dn)] for a in w.t_accounts)
-            s1 = sum(post.bal[(a, dn)] for a in w.t_accounts)
+            dk = w.denom_key(dn)
+            s0 = sum(pre.bal[(a, dk)] for a in w.t_accounts)
+            s1 = sum(post.bal[(a, dk)] for a in w.t_accounts)
             if s0 != s1:
                 problems.append("sum of %s balances changed %d -> %d" % (dn, s0, s1))
         for t in w.t_tokens:
